@@ -77,6 +77,34 @@ theorem leaves_once_full_false : ¬ leaves_once_full := by
 example : wf (.tup [(['a'], .arr 2 [some (.leaf .trueSet), none, some (.dict [(.num 1, .leaf .other)])]),
     (['b'], .leaf .emptySet)]) = true := by decide
 
+/-- for EVERY tree — also when a dictionary holds several values under one key (`{k: v} | {k: v'}`) —
+the reported (path, leaf) pairs are exactly the leaves reached through the members: every
+(key, value) pair of a dictionary is a member under the key's path -/
+theorem leaf_iff_reaches (t : Tree) (p : Path) (l : Leaf) : (p, l) ∈ leaves t ↔ Reaches t p (.leaf l) :=
+  ⟨reaches_of_mem t p l, mem_of_reaches t p l⟩
+
+/-- the leaves of a dictionary are, entry by entry, the leaves of each value under its key's step:
+entries sharing a key share path prefixes (so two results may carry one name) but none is dropped,
+and the number of leaves is the sum over the entries -/
+theorem dict_leaves (es : List (Key × Tree)) :
+    leaves (.dict es) = es.flatMap (fun e => (leaves e.2).map (pre (.key e.1))) ∧
+    (leaves (.dict es)).length = (es.map (fun e => (leaves e.2).length)).sum := by
+  have h : leaves (.dict es) = es.flatMap (fun e => (leaves e.2).map (pre (.key e.1))) := by
+    rw [leaves, leavesEntries_flatMap]
+  refine ⟨h, ?_⟩
+  rw [h, List.length_flatMap]
+  simp
+
+/-- the multiset of reported (name, leaf) pairs of a dictionary does not depend on the order in which
+its entries are enumerated (Go: `OrderedEntries`), repeated keys included: it is the specified one -/
+theorem dict_report_multiset (es es' : List (Key × Tree)) (h : es.Perm es')
+    (hn : namesOk (.dict es') = true) :
+    (Impl.foreachLeaf (.dict es') []).Perm ((leaves (.dict es)).map (fun pl => (render pl.1, pl.2))) := by
+  rw [leaves_paths_partial _ hn]
+  apply List.Perm.map
+  rw [(dict_leaves es).1, (dict_leaves es').1]
+  exact (List.Perm.flatMap_right _ h).symm
+
 /-! ### Part 2 — test files -/
 
 /-- getTestFiles' walk finds exactly the files whose path ends in `_test.arrai` and that are not
